@@ -32,6 +32,14 @@ def load_registry(prop):
     mod = importlib.import_module('contracts.' + prop)
     mod.register(reg)
     declare_heap_keys(reg)
+    # mechanical guard against clauses weakened into tautologies
+    import re as _re
+    for c in reg.contracts.values():
+        clauses = list(c.ensures) + list(c.requires) + [x for v in (c.raises or {}).values() for x in v] + list(c.ghost.get('ensures_fall', []))
+        for cl in clauses:
+            txt = cl[0] if isinstance(cl, tuple) else cl
+            if isinstance(txt, str) and _re.search(r'\bor\s+True\b|\bif\s+False\b', txt):
+                raise SystemExit('CHECKER-ERROR vacuous clause in contract %s: %s' % (c.target, txt[:120]))
     return reg, mod
 
 
